@@ -1,3 +1,12 @@
+// Package c05 checks property C05: mutations are all-or-nothing, also when the storage layer
+// fails mid-way (level: fault enumeration).
+//
+//   - gen_test.go   the serialisable Case (prior operations + the operation under test) and its
+//     rapid generator
+//   - exec_test.go  a node on the shared fault store (hx/faultstore.go) with an event collector,
+//     preparation and execution of one operation, raw and API-level dumps, structural invariants
+//   - c05_test.go   the sweep over fault positions, the oracle, the diagnosers of the listed
+//     findings, and the test entry points
 package c05
 
 import (
@@ -183,6 +192,9 @@ func runCase(c Case, o runOpts) (*hx.Failure, *report) {
 	twinStruct := ""
 	twinEventsReadable := true
 	if twinOK {
+		if multiHead(twinPost) {
+			rep.Labels = append(rep.Labels, "result-state:some-clock-has-several-heads")
+		}
 		twinStruct = structural(twinPost)
 		if twinStruct != "" {
 			rep.Labels = append(rep.Labels, "twin-structural:"+clause(twinStruct))
@@ -279,8 +291,6 @@ func runCase(c Case, o runOpts) (*hx.Failure, *report) {
 			return nil, rep
 		}
 		final := k == 0
-		reused := !final || true
-		_ = reused
 		ids := prim.idCache
 		res, w := s.runCall(prim, call, opIdx, hx.FaultPlan{K: k})
 		evs := prim.collect()
@@ -380,6 +390,23 @@ func compareLogical(e *env, preFull, preLight []section, full bool) string {
 		return diffSections(preFull, e.logical(true))
 	}
 	return diffSections(preLight, e.logical(false))
+}
+
+// multiHead reports whether some clock (document field, composite or collection) has more than
+// one head in the raw dump.
+func multiHead(raw []hx.FaultKV) bool {
+	n := map[string]int{}
+	for _, kv := range raw {
+		k := string(kv.K)
+		if strings.HasPrefix(k, "/db/heads/") {
+			clock := k[:strings.LastIndex(k, "/")]
+			n[clock]++
+			if n[clock] > 1 {
+				return true
+			}
+		}
+	}
+	return false
 }
 
 // eventsReadable checks that every update event announces a cid whose block is stored with the
